@@ -181,6 +181,12 @@ def run(ctx):
            if cyc else "%d functions, call graph acyclic" % len(local), "cycle search on the resolved call graph")
     sites = panics.enumerate_sites(p, fns)
     chk.floor("panic-capable sites reachable from the entry points", len(sites), 15)
+    # calls to std routines that panic on a contract violation (unmodelled foreign functions are otherwise taken as total)
+    for c_ in panics.contract_calls(p, fns):
+        chk.ob("contract/%s/%s#%d" % (c_["fn"], c_["api"].rsplit("::", 2)[-2].split("<")[0] + "::" + c_["api"].rsplit("::", 1)[-1], c_["k"]),
+               c_["ok"], "a std routine with a panic contract is called only where the call site guarantees the contract (%s)" % c_["rule"],
+               "%s:%s" % (p.bodies[c_["fn"]].file, c_["ln"]), "%s: %s" % (c_["api"], c_["why"]),
+               "call sites of contract-bearing std routines in the analysed functions; whole-range forms discharged by type")
     hit_fns = {k[0] for k in I.block_hits}
     for s in sites:
         fl = failing.get((s["fn"], s["bb"]))
